@@ -3,3 +3,4 @@ import Efp.Model.Series
 import Efp.Model.Val
 import Efp.Model.Graph
 import Efp.Theory.Incr
+import Efp.Model.Calc
